@@ -227,7 +227,7 @@ def main(argv=None):
                 rc, out = cp.returncode, cp.stdout.strip().splitlines()[-1:] or [cp.stderr[-400:]]
             except subprocess.TimeoutExpired:
                 rc, out = 2, ["replay timed out"]
-            if rc == 1:
+            if rc == 1 and out and out[0].startswith("REPRODUCED:"):
                 reproduced = (path, out[0], v)
                 break
             unconfirmed.append({"key": key, "replay": str(path), "output": out[0] if out else "", "rc": rc})
